@@ -12,6 +12,7 @@ RULE = ("random well-formed text files: dimension sizes 1-6, column subsets (dat
         "cell with the generating dictionary. signature = (column-name set, sparsity class, token set, comment class); "
         "non-trivial = at least two of: permuted columns, shuffled rows, sparse rows, optional columns.")
 RULE += " " + 'Decimal values beyond single precision in every field.'
+RULE += " " + 'Rounds 9-10: member columns with 1-based or arbitrary ascending labels.'
 ASSUMPTIONS = ["no duplicated (time, lead time, location) rows; locations without an id column are identified by lat/lon/elev",
                "numbers in the file are short exact decimals"]
 REQUIRED_COUNTERS = ["files_read", "cells_compared", "locations_compared", "metadata_checks"]
